@@ -23,6 +23,7 @@ from hypothesis import strategies as st
 from .. import history as H
 from .. import strategies as S
 from ..common import dc
+from ..common import nodes_with_metadata
 from ..engine import HarnessError
 
 TYPES = ["Hypergraph", "DirectedHypergraph", "TemporalHypergraph", "MultiplexHypergraph"]
@@ -93,7 +94,7 @@ class Kit:
 
     def content_of(self, h):
         """Light observation of the content through the public API."""
-        nodes = {n: dc(m) for n, m in h.get_nodes(metadata=True).items()}
+        nodes = {n: dc(m) for n, m in nodes_with_metadata(h).items()}
         listed = list(h.get_edges())
         edges = {}
         # per-hyperedge getters on the plain listing (the bulk listing get_edges(metadata=True)
